@@ -46,6 +46,12 @@ def render(name, s, e, nlook, shape=None):
         # the other thread's whole call falls inside ours: A.START B.START B.END A.END
         evs = [E.ev(name, 1, s), E.ev(name, 1, s, tid=2), E.ev(name, 2, (0x9a, 0x9b9b, 0x9c9c, 0x9d9d), tid=2)] + mid + [E.ev(name, 2, e)]
         judged = len(evs) - 1
+    if shape == 'odd-timestamps':
+        st = E.restamp(evs)
+        # nested records stamped later than the END / on the END's tick / before the START
+        st = [st[0]._replace(timestamp=500)] + [e._replace(timestamp=(900 + i) if i % 2 else 500) for i, e in enumerate(st[1:-1])] + [st[-1]._replace(timestamp=500)]
+        out = [t for t in p.feed_generator(st) if type(t).__name__ != 'VfsLookup']
+        return E.stable_str(out[0]) if len(out) == 1 else None
     out = [t for t in p.feed_generator(E.restamp(evs)) if t.ktraces[0].eventid == evs[0].eventid and t.ktraces[-1].timestamp == judged]
     if len(out) != 1:
         return None
@@ -64,7 +70,7 @@ def judge_decoder(name, starts, nlooks, acc):
             for err in ERRS:
                 for ret in RETS:
                     for tail in TAILS:
-                      for shape in ((None, 'long', 'crossing', 'enclosing') if (err in (0, 2, 9999) and ret in (0x55, M64) and tail == TAILS[1] and si == 0) else (None,)):
+                      for shape in ((None, 'long', 'crossing', 'enclosing', 'odd-timestamps') if (err in (0, 2, 9999) and ret in (0x55, M64) and tail == TAILS[1] and si == 0) else (None,)):
                         e = (err, ret) + tail
                         case = {'decoder': name, 'start': [hex(x) for x in s], 'end': [hex(x) for x in e], 'lookups': nlook, 'shape': shape}
                         try:
@@ -135,7 +141,7 @@ class C10(Check):
             '9999, 2^31, 2^32, 2^63, 2^64-1} x return word {0,1,0x55,2^31,2^63,2^64-1} x words 2,3 {(0,0),(0x66,0x77)} x '
             'lookups in window {6 (quick); 0 and 6 (thorough)}; for 12 END tuples per decoder also a window with 5000 stand-alone '
             'same-thread records between START and END, and crossing / enclosing windows (another thread inside the same call with other END '
-            'words: A.START B.START A.END B.END and A.START B.START B.END A.END, parser built with a populated thread map). Oracle: error!=0 => result part is exactly ", errno: NAME(code)" '
+            'words: A.START B.START A.END B.END and A.START B.START B.END A.END, parser built with a populated thread map), and a window whose nested records carry the END tick or later ticks. Oracle: error!=0 => result part is exactly ", errno: NAME(code)" '
             'or ", errno: code" with that code; error==0 => no errno, every number shown renders END word 1..3; call part '
             'identical across END tuples; result part identical across START tuples. Distinct by construction; non-trivial = '
             'error word non-zero or a success value is shown.')
